@@ -28,7 +28,7 @@ Range(s) == { s[i] : i \in 1..Len(s) }
 TInit ==
     /\ \E t \in 1..Len(Bounds) : tr = t /\ l = Bounds[t].s
     /\ viol = NoViol
-    /\ cfg = [minb |-> 0, maxb |-> 0, limit |-> 0, round |-> 0, idle |-> FALSE]
+    /\ cfg = [minb |-> 0, maxb |-> 0, limit |-> 0, round |-> 0, idle |-> FALSE, refresh |-> 0]
     /\ tbl = << >> /\ hist = (0 :> {}) /\ call = << >> /\ tgt = << >> /\ urev = << >>
     /\ streak = << >> /\ changed = {} /\ doneVer = << >> /\ firstWait = 0
 
@@ -53,6 +53,10 @@ RecChangeBad(c) ==
     IF c.del THEN "C15_ReconcilerDeleted"
     ELSE IF c.k \notin DOMAIN tbl THEN "C15_NoResurrect"
     ELSE IF c.ver # tbl[c.k].ver \/ c.other # tbl[c.k].other THEN "C15_StatusOnly"
+    \* the refresh loop (when enabled) marks objects that are Done, and only those, for another Update
+    ELSE IF c.kind = "Refreshing"
+         THEN (IF cfg.refresh = 0 THEN "C15_StatusOnly"
+               ELSE IF tbl[c.k].kind # "Done" THEN "C15_RefreshOnlyDone" ELSE "ok")
     ELSE IF c.kind \notin {"Done", "Error"} THEN "C15_StatusOnly"
     ELSE IF c.k \notin DOMAIN call \/ call[c.k].kind # "update" \/ call[c.k].ver # c.ver THEN "C15_RightVersion"
     ELSE IF (c.kind = "Done") # (~call[c.k].fail) THEN "C15_RightOutcome"
@@ -104,7 +108,8 @@ QuiesceBad(e) ==
     LET rows == Range(e.table)
         tg == { << e.target[i][1], e.target[i][2] >> : i \in 1..Len(e.target) } IN
     IF tg # { << k, tgt[k] >> : k \in DOMAIN tgt } THEN "MACHINERY_TargetBookkeeping"
-    ELSE IF \E r \in rows : r[3] # "Done" THEN "C14_Converged_Status"
+    \* (with the refresh loop running an object may be on its way from Done to Done again)
+    ELSE IF \E r \in rows : r[3] # "Done" /\ ~(cfg.refresh > 0 /\ r[3] = "Refreshing") THEN "C14_Converged_Status"
     ELSE IF { << r[1], r[2] >> : r \in rows } # tg THEN "C14_Converged_Target"
     ELSE "ok"
 
@@ -118,7 +123,8 @@ Bad(e) ==
 
 \* ------------------------------------------------------------- state update
 Step(e) ==
-    /\ cfg' = IF e.op = "config" THEN [minb |-> e.minb, maxb |-> e.maxb, limit |-> e.limit, round |-> e.round, idle |-> e.idle]
+    /\ cfg' = IF e.op = "config" THEN [minb |-> e.minb, maxb |-> e.maxb, limit |-> e.limit, round |-> e.round, idle |-> e.idle,
+                                        refresh |-> e.refresh]
               ELSE cfg
     /\ tbl' = IF e.op = "commit" THEN ApplyChanges(tbl, e.changes) ELSE tbl
     /\ hist' = IF e.op = "commit" THEN Put(hist, e.rev, Contents(ApplyChanges(tbl, e.changes))) ELSE hist
@@ -133,8 +139,11 @@ Step(e) ==
                           THEN Put(urev, e.k, [urev[e.k] EXCEPT !.eff = e.rev]) ELSE urev)
                ELSE Put(urev, e.k, [rev |-> e.rev, eff |-> e.rev, del |-> FALSE])
     \* (a status-only write of another reconciler is no change of the object: it neither asks for a new attempt
-    \* nor restarts the retry sequence)
+    \* nor restarts the retry sequence -- except on an object that is being refreshed: its status stays Refreshing
+    \* under a new revision, so the incremental loop takes it up again as a changed object at once)
     /\ changed' = IF e.op = "user" /\ e.kind # "status2" /\ (e.kind \in {"upsert", "reinsert"} \/ e.found) THEN changed \cup {e.k}
+                  ELSE IF e.op = "user" /\ e.kind = "status2" /\ e.found /\ e.k \in DOMAIN tbl /\ tbl[e.k].kind = "Refreshing"
+                       THEN changed \cup {e.k}
                   ELSE IF e.op = "call" /\ e.kind # "prune" THEN changed \ {e.k}
                   ELSE changed
     /\ call' = IF e.op = "call" /\ e.kind # "prune"
